@@ -30,7 +30,8 @@ GATEWAY = "update_attribute"
 # members of an entity / type / component object that lead to the workspace: a test on one of them, guarding nothing but
 # persistence calls, asks whether the gateway can be reached at all (false only while the constructor runs)
 # (`on_file` is the gateway's own gate — C03.W4 — so testing it first changes nothing)
-GATEWAY_MEMBERS = {"workspace", "parent", "on_file"}
+# (`geoh5` / `h5file`: for the Workspace itself the gateway is its own open file)
+GATEWAY_MEMBERS = {"workspace", "parent", "on_file", "geoh5", "h5file"}
 
 
 # ---------------------------------------------------------------------------------------------- gateway call arguments
@@ -121,12 +122,30 @@ def const_route(proj, fn, expr, at=None, node=None):
     return None
 
 
-def is_gateway_stmt(s) -> bool:
+def sink_entity(call: ast.Call, sink: str | None):
+    """The entity handed DIRECTLY to the writer's fallback sink (`H5Writer.write_attributes(file, E)`, or through a wrapper that
+    is given the writer function first: `self._io_call(H5Writer.write_attributes, E, mode="r+")`), else None."""
+    if not sink:
+        return None
+
+    def is_sink(e):
+        return (isinstance(e, ast.Attribute) and e.attr == sink) or (isinstance(e, ast.Name) and e.id == sink)
+
+    args = [a for a in call.args if not isinstance(a, ast.Starred)]
+    if is_sink(call.func) and isinstance(call.func, ast.Attribute) and len(args) >= 2:
+        return args[1]
+    for i, a in enumerate(args[:-1]):
+        if is_sink(a) and isinstance(a, ast.Attribute):
+            return args[i + 1]
+    return None
+
+
+def is_gateway_stmt(s, sink: str | None = None) -> bool:
     return (
         isinstance(s, ast.Expr)
         and isinstance(s.value, ast.Call)
         and isinstance(s.value.func, ast.Attribute)
-        and s.value.func.attr == GATEWAY
+        and (s.value.func.attr == GATEWAY or sink_entity(s.value, sink) is not None)
     )
 
 
@@ -146,7 +165,7 @@ def _is_bare_return(s) -> bool:
     return isinstance(s, ast.Return) and (s.value is None or (isinstance(s.value, ast.Constant) and s.value.value is None))
 
 
-def fold_tail_guard(fn_node):
+def fold_tail_guard(fn_node, sink=None):
     """`...; if G: return; P1; P2` (P* persistence calls, at the end of the function body) -> `...; if not G: P1; P2`.
     The statements keep their identity and positions; the original node is not modified."""
     body = fn_node.body
@@ -154,7 +173,7 @@ def fold_tail_guard(fn_node):
         rest = body[i + 1:]
         if (
             isinstance(s, ast.If) and not s.orelse and len(s.body) == 1 and _is_bare_return(s.body[0])
-            and rest and all(is_gateway_stmt(x) for x in rest)
+            and rest and all(is_gateway_stmt(x, sink) for x in rest)
         ):
             new_if = ast.copy_location(ast.If(test=negated(s.test), body=list(rest), orelse=[]), s)
             ast.fix_missing_locations(new_if)
@@ -281,7 +300,7 @@ class RobustPersistEngine(PersistEngine):
         availability guard clause folded into the nested form."""
         key = ("norm-node", fn)
         if key not in self._memo:
-            self._memo[key] = fold_tail_guard(unroll_constant_loops(self.p, fn, fn.node))
+            self._memo[key] = fold_tail_guard(unroll_constant_loops(self.p, fn, fn.node), self.t.fallback)
         return self._memo[key]
 
     def cfg(self, fn):
@@ -377,6 +396,13 @@ class RobustPersistEngine(PersistEngine):
                     call = ast.copy_location(ast.Call(func=n.func, args=[ent] + ([route_expr] if route_expr is not None else []), keywords=[]), n)
                 yield ("persist", recv, route, call)
                 return
+        ent = sink_entity(n, self.t.fallback)
+        if ent is not None:
+            # the fallback sink called directly: what `update_attribute(E, "attributes")` ends in
+            ent_x = ent if (isinstance(ent, ast.Name) and ent.id == sn) else expanded(ent, fn.node)
+            recv = "self" if (isinstance(ent_x, ast.Name) and ent_x.id == sn) else unparse(ent)
+            yield ("persist", recv, "attributes", ast.copy_location(ast.Call(func=n.func, args=[ent, ast.Constant(value="attributes")], keywords=[]), n))
+            return
         target = None
         if isinstance(f, ast.Attribute) and f.attr not in _MUTATORS:
             target = self.resolve_self_call(fn, K, n)
@@ -477,10 +503,12 @@ class RobustPersistEngine(PersistEngine):
 
     # ----------------------------------------------------------------------------------------- gateway guard
     def _gateway_guard(self, fn, K, node) -> bool:
-        if not super()._gateway_guard(fn, K, node):
-            return False
-        # the test must not depend on the assigned value through a local either
+        """`if self.workspace:` / `if self.parent is not None:` / `if self._geoh5 and <writable>:` around nothing but
+        persistence calls: gateway availability, treated as always true."""
         st = node.stmt
+        if not isinstance(st, ast.If) or st.orelse or not st.body or not all(is_gateway_stmt(x, self.t.fallback) for x in st.body):
+            return False
+        # the test must not depend on the assigned value, directly or through a local
         params = set(fn.params[1:]) | {a.arg for a in fn.node.args.kwonlyargs}
         defs = single_assignments(fn.node)
         test = expanded(st.test, fn.node, defs)
